@@ -23,6 +23,7 @@ func checkC18(c *Ctx) {
 	c.rule("C18.e", "validQuoted byte-class table", 514)
 	c.rule("C18.f", "every quoted-string emission is validated, constant, or a single delimiter rune", 5)
 	c.rule("C18.g", "completion cancels the command's continuation requests; Wait callers stop on error", 3)
+	c.rule("C18.h", "UNAUTHENTICATE resets the enabled extensions the encoder modes derive from", 1)
 	ruleSyncDecision(c, "C18.a")
 	ruleLiteralMarker(c, "C18.b")
 	ruleModeProvenance(c, "C18.c")
@@ -30,6 +31,7 @@ func checkC18(c *Ctx) {
 	ruleValidQuoted(c, "C18.e")
 	ruleQuotedValidated(c, "C18.f")
 	ruleContReqCancelled(c, "C18.g")
+	ruleEnabledResetOnUnauth(c, "C18.h")
 }
 
 func capSubsets(names ...string) [][]string {
@@ -118,7 +120,10 @@ func ruleSyncDecision(c *Ctx, rule string) {
 	obj := sl.Object().(*types.Func)
 	for _, lm := range []bool{false, true} {
 		for _, lp := range []bool{false, true} {
-			for _, size := range []int{4096, 4097} {
+			for _, payload := range []string{strings.Repeat("a", 4096), strings.Repeat("a", 4097), strings.Repeat("é", 2049)} {
+				// the limits of RFC 7888 count octets: the third payload has 4098
+				// octets but only 2049 characters
+				size := len(payload)
 				for _, side := range []int64{1, 2} {
 					var syncUsed, reached, errSet bool
 					in := &Interp{P: p}
@@ -155,8 +160,8 @@ func ruleSyncDecision(c *Ctx, rule string) {
 					in.DynCall = func(fun Val, args []Val) (Val, bool) {
 						return ptrV{&objV{fields: map[string]Val{}, path: "contReq"}}, true
 					}
-					_, err := in.Eval(obj, ptrV{&objV{path: "enc", fields: map[string]Val{}}}, []Val{mkString(strings.Repeat("a", size))})
-					key := fmt.Sprintf("Encoder.stringLiteral[side=%d,LiteralMinus=%v,LiteralPlus=%v,size=%d]", side, lm, lp, size)
+					_, err := in.Eval(obj, ptrV{&objV{path: "enc", fields: map[string]Val{}}}, []Val{mkString(payload)})
+					key := fmt.Sprintf("Encoder.stringLiteral[side=%d,LiteralMinus=%v,LiteralPlus=%v,size=%d octets/%d chars]", side, lm, lp, size, len([]rune(payload)))
 					c.evals++
 					if err != nil {
 						c.undecided(rule, key, sl.Pos(), err.Error())
